@@ -213,6 +213,10 @@ class T1(T0):
   """t1"""
 
 
+def two(x=None, y=None):
+  return sigs.Rec('two', (x, y), (), (), {})
+
+
 def _misc_op(cfg, k, v):
   """Applies misc operation k to cfg (or a derived copy); returns the Buildable to keep checking."""
   if k == 0:
@@ -231,11 +235,20 @@ def _misc_op(cfg, k, v):
   elif k == 5:
     materialize.materialize_defaults(cfg)
   elif k == 6:
-    fdl.assign(cfg, x=v, z=v + 1)
+    if fdl.get_callable(cfg) is two:
+      fdl.assign(cfg, x=v, y=v + 1)
+    else:
+      fdl.assign(cfg, x=v, z=v + 1)
   elif k == 7:
     return fdl.copy_with(cfg, y=v)
   elif k == 8:
     cfg.x = T1.new(v)            # value and tag arrive together
+  elif k == 10:
+    # a callable without `z`: dropped arguments must be logged as deletions
+    if fdl.get_callable(cfg) is two:
+      fdl.update_callable(cfg, fam.g0)
+    else:
+      fdl.update_callable(cfg, two, drop_invalid_args=True)
   else:
     del cfg.x
   return cfg
@@ -244,7 +257,7 @@ def _misc_op(cfg, k, v):
 def c16_misc(k0: int, k1: int, k2: int, v: int, sus: int) -> bool:
   """
   Tag edits, update_callable, materialize_defaults, assign, copy_with, tagged assignment, deletion.
-  require: 0 <= k0 <= 9 and 0 <= k1 <= 9 and 0 <= k2 <= 9 and 0 <= sus <= 3
+  require: 0 <= k0 <= 10 and 0 <= k1 <= 10 and 0 <= k2 <= 10 and 0 <= sus <= 3
   """
   cfg = fdl.Config(fam.g0, x=1)
   other = fdl.Config(fam.g1, y=2)
@@ -317,13 +330,13 @@ def obligations(tier, seed):
   smoke.pop('er', None)
   smoke['sig'] = core[0]
   mcubes = [Cube(f'k{a}_{b}_s{s}', [], dict(k0=a, k1=b, sus=s), est=10)
-            for a in range(10) for b in range(10) for s in ((a + b) % 4,)]
+            for a in range(11) for b in range(11) for s in ((a + b) % 4,)]
   if tier != 'quick':
     mcubes = [Cube(f'k{a}_{b}_s{s}', [], dict(k0=a, k1=b, sus=s), est=10)
-              for a in range(10) for b in range(10) for s in range(4)]
+              for a in range(11) for b in range(11) for s in range(4)]
   return [
       Obligation('c16_ops2', c16_ops2, cubes, timeout=t, path_timeout=30, smoke=dict(smoke, sus=0),
                  extra_smokes=[dict(smoke, sus=s) for s in (1, 2, 3, 4)]),
       Obligation('c16_misc', c16_misc, mcubes, timeout=t, path_timeout=30, smoke=dict(k0=0, k1=7, k2=5, v=3, sus=0),
-                 extra_smokes=[dict(k0=a, k1=(a + 3) % 10, k2=(a + 6) % 10, v=3, sus=a % 4) for a in range(10)]),
+                 extra_smokes=[dict(k0=a, k1=(a + 3) % 11, k2=(a + 6) % 11, v=3, sus=a % 4) for a in range(11)] + [dict(k0=6, k1=10, k2=10, v=3, sus=0)]),
   ]
